@@ -399,6 +399,7 @@ func runOnce(req *Req, dir string) (resp Resp) {
 			func() {
 				defer func() { recover() }()
 				resp.CallStack = vm.VerifCallStackLen()
+				resp.EvalDepth = vm.VerifEvalDepth()
 				resp.Scopes = map[string][2]int{}
 				for id, st := range vm.VerifScopeStats() {
 					resp.Scopes[strconv.Itoa(id)] = st
